@@ -155,6 +155,25 @@ def encoded_case(res, seed, index, tier, rng):
     d = snapshot.diff(strip_links(E), strip_links(S))
     for path, a, b in d[:3]:
         res.violation(f"C04:decode:{snapshot.field_key(path)}", f"{path}: the documented encoding denotes {a}, rv loaded {b} (choices {ch.describe()})", desc)
+    if not d and index % 2 == 0:
+        # what bytes denote cannot depend on what happened to an object loaded from them earlier
+        from . import c06
+        touched = c06.mutate_live(o, random.Random(index), 6, prefer=("/payload/project/", "/effect/", "/payload/"))
+        if touched:
+            res.count("reloads_after_editing_first_result")
+            try:
+                S_b = build.norm(_snap(workload.load(raw)), "after")
+            except Exception as e:
+                res.violation(f"C04:second-load-raises:{workload.exc_key(e)}", f"loading the same bytes a second time raised {e!r}", desc)
+                return
+            if ch.legacy_header and kind == "project":
+                for k in list(E):
+                    if k not in ("modules", "patterns", "kind", "initial_bpm", "initial_tpl", "global_volume", "file_version"):
+                        S_b[k] = E[k]
+            d2 = snapshot.diff(strip_links(E), strip_links(S_b))
+            for path, a, b in d2[:3]:
+                res.violation(f"C04:decode-second-load:{snapshot.field_key(path)}",
+                              f"{path}: second load of the same bytes gives {b}, the encoding denotes {a} (the first result had been edited in place: {touched[:3]})", desc)
 
 
 # ------------------------------------------------------------------ (b) fixtures against the independent decoder
